@@ -526,7 +526,7 @@ func ruleExtWord(c *Ctx) {
 			}
 			for _, cd := range g.CondsAtInstr(e.In) {
 				b, ok := cd.V.(*ssa.BinOp)
-				if !ok || b.Op != token.EQL || !cd.Sense {
+				if !ok || !eqHolds(b, cd) {
 					continue
 				}
 				if stripConv(b.X) == v {
@@ -646,7 +646,7 @@ func ruleSkipGroup(c *Ctx) {
 		}
 		for _, cd := range g.CondsAtInstr(in) {
 			eq, ok := cd.V.(*ssa.BinOp)
-			if !ok || eq.Op != token.EQL || !cd.Sense {
+			if !ok || !eqHolds(eq, cd) {
 				continue
 			}
 			if k, ok := constInt(eq.Y); ok {
@@ -695,7 +695,7 @@ func ruleSkipGroup(c *Ctx) {
 		// only case arms (conditioned on the opcode), not the loop's own increment
 		inCase := false
 		for _, cd := range g.CondsAtInstr(in) {
-			if eq, ok := cd.V.(*ssa.BinOp); ok && eq.Op == token.EQL && cd.Sense {
+			if eq, ok := cd.V.(*ssa.BinOp); ok && eqHolds(eq, cd) {
 				if _, ok := constInt(eq.Y); ok {
 					inCase = true
 				}
